@@ -27,6 +27,7 @@ Lattice == [
   cNoRestarts     |-> {"absent", "0s", "2m"},
   cMode           |-> {"", "auto", "manual"},
   cSelector       |-> {"absent", "present"},
+  cAntiAffinity   |-> {"absent", "present"},
   autoPause       |-> {"absent", "present"},
   apEnabled       |-> {"absent", "true", "false"},
   apMaxRestarts   |-> {"absent", "0", "2", "5"},
@@ -41,7 +42,7 @@ Fields == DOMAIN Lattice
 
 Base == [ tmplName |-> "", maxUnavailable |-> "1", maxSchedFailure |-> "0", maxParallel |-> "absent", ssInterval |-> "1m", ssIncrease |-> "1",
           frequency |-> "10s", canary |-> "present", cReplicas |-> "1", cDuration |-> "5m", cNoRestarts |-> "2m", cMode |-> "auto",
-          cSelector |-> "absent", autoPause |-> "present", apEnabled |-> "true", apMaxRestarts |-> "2", apMaxSlowStart |-> "absent",
+          cSelector |-> "absent", cAntiAffinity |-> "absent", autoPause |-> "present", apEnabled |-> "true", apMaxRestarts |-> "2", apMaxSlowStart |-> "absent",
           autoFail |-> "present", afEnabled |-> "true", afMaxRestarts |-> "5", afMaxRestartsDur |-> "absent", afTimeout |-> "absent" ]
 
 Empty == [ f \in Fields |-> IF f = "tmplName" \/ f = "cMode" THEN "" ELSE "absent" ]
@@ -64,7 +65,14 @@ RUBlock == { [Empty EXCEPT !.maxUnavailable = mu, !.maxSchedFailure = sf, !.maxP
 
 Points == Singles \cup (IF Full THEN Block \cup RUBlock ELSE { p \in Block : p.autoPause = "present" /\ p.afMaxRestarts # "1" } \cup { p \in RUBlock : p.maxParallel \in {"absent", "0"} /\ p.frequency = "absent" })
 
-Space == { [fn |-> "defaults", spec |-> p, mode |-> m] : p \in Points, m \in {"auto", "manual"} }
+\* the store the two Reconcile functions run on: two nodes that match the canary selector ("nodes"), two nodes that do not
+\* ("nomatch"), no node at all ("empty").  The latter two are applied to the single-field points and to the canary
+\* node-selection block (selector x anti-affinity keys x replicas).
+SelBlock == { [Base EXCEPT !.cSelector = cs, !.cAntiAffinity = aa, !.cReplicas = cr] :
+                cs \in Lattice.cSelector, aa \in Lattice.cAntiAffinity, cr \in Lattice.cReplicas }
+
+Space == { [fn |-> "defaults", spec |-> p, mode |-> m, store |-> "nodes"] : p \in Points \cup SelBlock, m \in {"auto", "manual"} } \cup
+         { [fn |-> "defaults", spec |-> p, mode |-> "auto", store |-> st] : p \in Singles \cup SelBlock, st \in {"nomatch", "empty"} }
 
 ASSUME PrintT(<<"VECTORS", Cardinality(Space)>>)
 ASSUME ndJsonSerialize(OutFile, SetToSeq(Space))
